@@ -400,15 +400,15 @@ def run(tier, seed, replay):
                 w, p, tt = float(rng.integers(1, 9)), float(rng.integers(1, 9)) / 4, float(rng.uniform(-2, 2))
                 w0 = float(rng.integers(1, 9))
                 paths = {}
-                paths["construction"] = lambda: qutip.coefficient(f, args={"w": w, "phase": p}, style=style)(tt)
-                paths["call-kw"] = lambda: qutip.coefficient(f, args={"w": w0}, style=style)(tt, w=w, phase=p)
-                paths["call-dict"] = lambda: qutip.coefficient(f, args={"w": w0}, style=style)(tt, {"w": w, "phase": p})
-                paths["call-phase-only"] = lambda: qutip.coefficient(f, args={"w": w}, style=style)(tt, phase=p)
-                paths["replace-kw"] = lambda: qutip.coefficient(f, args={"w": w0}, style=style).replace_arguments(w=w, phase=p)(tt)
-                paths["replace-dict"] = lambda: qutip.coefficient(f, args={"w": w0}, style=style).replace_arguments({"w": w, "phase": p})(tt)
-                paths["replace-phase-only"] = lambda: qutip.coefficient(f, args={"w": w}, style=style).replace_arguments({"phase": p})(tt)
-                paths["replace-twice"] = lambda: qutip.coefficient(f, args={"w": w0}, style=style).replace_arguments(w=w).replace_arguments(phase=p)(tt)
-                paths["qobjevo-call"] = lambda: (qutip.QobjEvo([qutip.qeye(1), qutip.coefficient(f, args={"w": w}, style=style)])(tt, phase=p)).full()[0, 0]
+                paths["construction"] = lambda: qutip.coefficient(f, args={"w": w, "phase": p}, function_style=style)(tt)
+                paths["call-kw"] = lambda: qutip.coefficient(f, args={"w": w0}, function_style=style)(tt, w=w, phase=p)
+                paths["call-dict"] = lambda: qutip.coefficient(f, args={"w": w0}, function_style=style)(tt, {"w": w, "phase": p})
+                paths["call-phase-only"] = lambda: qutip.coefficient(f, args={"w": w}, function_style=style)(tt, phase=p)
+                paths["replace-kw"] = lambda: qutip.coefficient(f, args={"w": w0}, function_style=style).replace_arguments(w=w, phase=p)(tt)
+                paths["replace-dict"] = lambda: qutip.coefficient(f, args={"w": w0}, function_style=style).replace_arguments({"w": w, "phase": p})(tt)
+                paths["replace-phase-only"] = lambda: qutip.coefficient(f, args={"w": w}, function_style=style).replace_arguments({"phase": p})(tt)
+                paths["replace-twice"] = lambda: qutip.coefficient(f, args={"w": w0}, function_style=style).replace_arguments(w=w).replace_arguments(phase=p)(tt)
+                paths["qobjevo-call"] = lambda: (qutip.QobjEvo([qutip.qeye(1), qutip.coefficient(f, args={"w": w}, function_style=style)])(tt, phase=p)).full()[0, 0]
                 want = ref(tt, w, p)
                 for name, fn in paths.items():
                     rep.evaluations += 1
@@ -420,12 +420,51 @@ def run(tier, seed, replay):
                         continue
                     if abs(got - want) > 1e-12 * max(1, abs(want)):
                         v(f"function-path:{name}", f"{f.__name__} style={style}: arguments given by {name} give {got}, the function value is {want}", {"f": f.__name__, "style": style, "path": name, "w": w, "phase": p, "t": tt})
-                c0 = qutip.coefficient(f, args={"w": w0, "phase": 0.5}, style=style)
+                c0 = qutip.coefficient(f, args={"w": w0, "phase": 0.5}, function_style=style)
                 before = complex(c0(tt))
                 c0.replace_arguments(w=w, phase=p)
                 c0(tt, w=w)
                 if complex(c0(tt)) != before:
                     v("replace-changes-original", f"{f.__name__}: the original coefficient changed value after replace_arguments / call-time arguments", {"f": f.__name__, "style": style})
+    # explicitly chosen signature styles that automatic detection would not pick: the style chosen at construction
+    # (keyword or the global setting then in force) is the coefficient's style for good
+    def e_dict(t, params):
+        return params["w"] * t + params.get("phase", 0.25)
+
+    def e_pyargs(t, args, phase=0.25):
+        return args * t + phase
+
+    def e_dict_named(t, w):
+        return w["w"] * t + w.get("phase", 0.25)
+    for f, wk, style, how in ((e_dict, "w", "dict", "keyword"), (e_pyargs, "args", "pythonic", "keyword"), (e_dict_named, "w", "dict", "keyword"),
+                              (e_dict, "w", "dict", "setting"), (e_pyargs, "args", "pythonic", "setting")):
+        for _ in range(4):
+            w, p, tt, w0 = float(rng.integers(1, 9)), float(rng.integers(1, 9)) / 4, float(rng.uniform(-2, 2)), float(rng.integers(1, 9))
+
+            def mk(a):
+                if how == "keyword":
+                    return qutip.coefficient(f, args=a, function_style=style)
+                with qutip.CoreOptions(function_coefficient_style=style):
+                    return qutip.coefficient(f, args=a)
+            paths = {"construction": lambda: mk({wk: w, "phase": p})(tt),
+                     "call-kw": lambda: mk({wk: w0})(tt, **{wk: w, "phase": p}),
+                     "call-dict": lambda: mk({wk: w0})(tt, {wk: w, "phase": p}),
+                     "replace-kw": lambda: mk({wk: w0}).replace_arguments(**{wk: w, "phase": p})(tt),
+                     "replace-dict": lambda: mk({wk: w0}).replace_arguments({wk: w, "phase": p})(tt),
+                     "replace-twice": lambda: mk({wk: w0}).replace_arguments({wk: w}).replace_arguments(phase=p)(tt),
+                     "copy-replace": lambda: mk({wk: w0}).copy().replace_arguments({wk: w, "phase": p})(tt),
+                     "qobjevo-call": lambda: (qutip.QobjEvo([qutip.qeye(1), mk({wk: w})])(tt, phase=p)).full()[0, 0]}
+            want = w * tt + p
+            for name, fn in paths.items():
+                rep.evaluations += 1
+                rep.count("func-explicit-style-path=" + name)
+                try:
+                    got = complex(fn())
+                except Exception as e:
+                    v(f"function-path-raises:{name}", f"{f.__name__} style={style} (by {how}) path {name}: {type(e).__name__}: {e}"[:200], {"f": f.__name__, "style": style, "path": name})
+                    continue
+                if abs(got - want) > 1e-12 * max(1, abs(want)):
+                    v(f"function-path:{name}", f"{f.__name__} style={style} (by {how}): arguments given by {name} give {got}, the function value is {want}", {"f": f.__name__, "style": style, "path": name, "w": w, "phase": p, "t": tt})
     # composite coefficients: replacement and call-time arguments give new values and leave the composite alone
     def g1(t, w):
         return np.cos(w * t)
